@@ -72,7 +72,7 @@ pub fn gen_user_red(r: &mut Rng) -> Option<[f32; 3]> {
         if r.chance(1, 8) {
             // a user value that happens to equal the built-in default (or a regulatory value) is still the user's value:
             // it must win over whatever the file says
-            return Some(*r.pick(&[[0.0, 1.3, 0.3], [1.0, 0.0, 0.0], [0.0, 1.0, 0.0], [0.0, 0.0, 0.0], [0.0, 0.0, 0.0]]));
+            return Some(*r.pick(&[[0.0, 1.3, 0.3], [1.0, 0.0, 0.0], [0.0, 1.0, 0.0], [0.0, 0.0, 0.0], [0.0, 0.0, 0.0], [0.0, 0.0, 0.3], [0.0, 0.0, 0.125]]));
         }
         if r.chance(1, 8) {
             // more decimals than the three the text form of a factor keeps, next to a carry (0.9996 -> 1.000)
@@ -126,6 +126,15 @@ pub fn gen_user_file(r: &mut Rng, o: &FacOpts) -> String {
     let mut triple = |r: &mut Rng| -> String {
         if o.zeros && r.chance(1, 12) {
             return "0.0, 0.0, 0.0".to_string();
+        }
+        if r.chance(1, 15) {
+            // only one of the three components is non-zero (e.g. emissions without primary energy)
+            let v = val(r, 900);
+            return match r.below(3) {
+                0 => format!("0, 0, {}", v),
+                1 => format!("0, {}, 0", v),
+                _ => format!("{}, 0, 0", v),
+            };
         }
         format!("{}, {}, {}", val(r, 2500), val(r, 3000), val(r, 900))
     };
